@@ -79,6 +79,9 @@ pub struct Acq {
 	pub lent: bool,
 	/// the critical section panics (C10/C11)
 	pub panic: bool,
+	/// the whole call is made from a destructor that runs while the thread is already unwinding
+	/// from an unrelated panic (`std::thread::panicking()` is true throughout)
+	pub unwind: bool,
 }
 
 #[derive(Clone, Debug, PartialEq, Eq, Hash)]
@@ -129,7 +132,7 @@ pub fn acq_desc(a: &Acq) -> String {
 		a.api.name(),
 		if a.lent { ":lent" } else { "" },
 		if a.panic { ":PANIC" } else { "" }
-	)
+	) + if a.unwind { ":IN-UNWIND" } else { "" }
 }
 
 pub fn arena_desc(a: &ArenaSpec) -> String {
@@ -224,6 +227,8 @@ pub struct GenCfg {
 	pub allow_pois: bool,
 	pub allow_panic: bool,
 	pub retry_bias: bool,
+	/// some acquisitions are made from a destructor during an unrelated unwind
+	pub allow_unwind: bool,
 }
 
 impl Default for GenCfg {
@@ -238,6 +243,7 @@ impl Default for GenCfg {
 			allow_pois: true,
 			allow_panic: false,
 			retry_bias: false,
+			allow_unwind: true,
 		}
 	}
 }
@@ -375,6 +381,7 @@ pub fn gen_acq(r: &mut Rng, a: &ArenaSpec, g: &GenCfg) -> Acq {
 		api,
 		lent,
 		panic: g.allow_panic && r.chance(1, 6),
+		unwind: g.allow_unwind && r.chance(1, 8),
 	}
 }
 
